@@ -28,7 +28,9 @@ OPT = list(DEFAULTS)
 
 
 def gen(rng, i, tier):
-    bits = (i if i >= 0 else int(rng.integers(0, 2 ** 11))) % (2 ** 11)
+    # all 2^11 subsets are enumerated over 2048 consecutive indices; the odd multiplier spreads them so that a short run
+    # (quick tier: 150 indices) already mixes every key, the high bits (FourierFilter, Outputs, Merging) included
+    bits = ((i * 1237 + 911) if i >= 0 else int(rng.integers(0, 2 ** 11))) % (2 ** 11)
     present = [k for j, k in enumerate(OPT) if (bits >> j) & 1]
     kw = {"Rmax": float(rng.choice([1.0, 1.5]))}
     for k in present:
